@@ -88,7 +88,7 @@ def run(ctx):
 
     hb, hlog = ctx.build_harness("c11")
     meta, sj = {}, []
-    model_bad, prop_bad, run_bad, mitm_bad = [], [], [], []
+    model_bad, prop_bad, run_bad, mitm_bad, gauge_bad = [], [], [], [], []
     if hb is None:
         ob_failed.append("harness does not build against the source tree: " + hlog[-800:])
     else:
@@ -123,6 +123,14 @@ def run(ctx):
                 for shard in meta["run_shards"]:
                     for i in (ctx.parse_nlist((rres.get(shard) or {}).get("P")) or []):
                         run_bad.append(rj[i] if i < len(rj) else {"index": i})
+            gj = load_jsonl(os.path.join(ctx.work, "gcases.jsonl"))
+            if meta.get("gauge_shards"):
+                gres = ctx.coq_eval_shards(GROUP, ctx.work, meta["gauge_shards"])
+                for shard, lg in gres["_errors"]:
+                    ob_failed.append("gauge shard %s did not evaluate: %s" % (shard, lg[-600:]))
+                for shard in meta["gauge_shards"]:
+                    for i in (ctx.parse_nlist((gres.get(shard) or {}).get("P")) or []):
+                        gauge_bad.append(gj[i] if i < len(gj) else {"index": i})
             mj = load_jsonl(os.path.join(ctx.work, "mcases.jsonl"))
             if meta.get("mitm_shards"):
                 mres = ctx.coq_eval_shards(GROUP, ctx.work, meta["mitm_shards"])
@@ -202,6 +210,12 @@ def run(ctx):
                        "rejected_label_index": rej, "events": [label_text(e) for e in sj[i]["events"]]},
                       False, "%d recorded run(s) are not traces of the LTS although the trace predicates hold; smallest: %s"
                       % (len(model_bad), describe(i, rej, [])))
+    for gr in gauge_bad[:3]:
+        sc = gr.get("scenario", {})
+        ctx.violation("open-connection-gauge-%s" % sc.get("stack", "?"),
+                      {"kind": "gauge", "scenario": sc, "observed": {k: v for k, v in gr.items() if k != "scenario"}},
+                      True, "listener_cx_active does not return to the number of open connections / to zero (%s): observed %s (T11_counter_balanced)"
+                      % (sc.get("name"), json.dumps({k: v for k, v in gr.items() if k != "scenario"})))
     for mr in mitm_bad[:3]:
         sc = mr.get("scenario", {})
         ctx.violation("late-request-%s" % sc.get("kind", "?"),
@@ -248,7 +262,8 @@ def run(ctx):
         "coqchk": chk,
         "table_obligations": obs,
         "unchecked_obligations": ob_failed,
-        "evaluations": int(meta.get("cases", 0)) + int(meta.get("run_cases", 0)) + int(meta.get("mitm_cases", 0)),
+        "evaluations": int(meta.get("cases", 0)) + int(meta.get("run_cases", 0)) + int(meta.get("mitm_cases", 0)) + int(meta.get("gauge_cases", 0)),
+        "open_connection_gauge_cases": int(meta.get("gauge_cases", 0)),
         "late_request_mitm_cases": int(meta.get("mitm_cases", 0)),
         "run_sequence_cases": int(meta.get("run_cases", 0)),
         "distinct_nontrivial": int(meta.get("distinct_traces", 0)),
@@ -259,7 +274,7 @@ def run(ctx):
                 "in different phases; non-trivial/distinct = distinct recorded label sequences",
         "traces_validated_against_impl": int(meta.get("cases", 0)) - len(model_bad),
         "model_mismatches": len(model_bad),
-        "property_failures_on_impl": len(prop_bad) + len(run_bad) + len(mitm_bad),
+        "property_failures_on_impl": len(prop_bad) + len(run_bad) + len(mitm_bad) + len(gauge_bad),
         "events_recorded": int(meta.get("events", 0)),
         "distribution": {k: meta.get(k) for k in ("by_mode", "by_phase", "by_after", "conns_per_scenario", "vanished_clients",
                                                    "late_dials", "shutdown_returned_nil", "shutdown_returned_ctx_error",
